@@ -19,6 +19,17 @@ CHECKS = {
        "difference is a violation. Exploration is the right level: the domain is an unbounded product space with a cheap exact oracle.",
   design_ref="DESIGN.md 4.1, 4.2, 5/C01, 6", note=KERNEL_NOTE,
   technique="property-based testing (Hypothesis) against a closed-form reference model"),
+ "C02": dict(
+  category="exploration",
+  text="Generated (library, likelihood profile, option set, seed) cases run through the real rejection_sample (all three execution "
+       "paths, real batching/pools) with a scripted likelihood helper and a recording or steering Generator; the acceptance rule is "
+       "re-executed on the captured choice/uniform draws and compared with the returned rows bit-for-bit (rows, order, truncation, "
+       "exactly one uniform call, each row's likelihood requested once). Steered draws place uniforms just below/above each ratio "
+       "and at 0. A second search does the same with the real kernel on generated data.",
+  design_ref="DESIGN.md 4.3, 4.4, 5/C02",
+  note="Trusts numpy exp/compare and the Generator subclassing mechanism (recording does not change the stream). The scripted helper "
+       "replaces only the likelihood values; every line of the rejection/batching code is the repository's.",
+  technique="property-based testing with captured/steered random draws and re-execution oracle"),
  "C03": dict(
   category="exploration",
   text="Generated problems pushed through rejection_sample with a recording Generator (in memory) or a recording pool that wraps "
@@ -28,6 +39,16 @@ CHECKS = {
        "draws per row against N(a, A) (KS / mean / covariance / lag-1, p<1e-9). Defects F1-F5 recognised by exact signatures.",
   design_ref="DESIGN.md 4.2, 4.3, 5/C03, 6", note=KERNEL_NOTE + " numpy's multivariate_normal is trusted to draw from the (mean, cov) it is given.",
   technique="property-based testing: captured-argument differential against closed form + statistical goodness-of-fit"),
+ "C06": dict(
+  category="exploration",
+  text="Scripted libraries whose ln_prior encodes the row number; all option combinations of rejection_sample and "
+       "iterative_rejection_sample with return_logprobs / return_all_logprobs; per-row provenance oracle for ln_prior, ln_likelihood "
+       "and the all-likelihoods array. Found and led to two fix: commits (structured ln_prior column on the file path; "
+       "length error for n_linear_samples>1).",
+  design_ref="DESIGN.md 4.4, 5/C06, 6",
+  note="Row identity is read from the period column (P = row+1), likelihoods from the scripted table; real kernel provenance is "
+       "covered by C02's end-to-end search.",
+  technique="property-based testing with provenance-encoding inputs"),
  "C07": dict(
   category="exploration",
   text="Metamorphic testing over unit assignments: a problem in canonical units and a twin with every unit slot (data, each prior "
@@ -43,6 +64,15 @@ CHECKS = {
        "that labels matter. The label defect F5 (ids not re-sorted) is recognised exactly and reported as a known finding.",
   design_ref="DESIGN.md 5/C08, 6", note=KERNEL_NOTE,
   technique="property-based testing with tagged observations (provenance oracle) + closed-form differential"),
+ "C14": dict(
+  category="exploration",
+  text="Generated libraries/profiles/requests/budgets/growth parameters through the real iterative_rejection_sample (3 paths) with "
+       "captured draws: budget, repeat-free prefix evaluation, acceptance against the running maximum with the last uniform array, "
+       "result type, mandatory raise for too-small libraries; plus the real kernel incl. finite-but-overflowing velocities. Found and "
+       "led to two fix: commits (exception object returned; in-memory path ignored max_prior_samples).",
+  design_ref="DESIGN.md 4.4, 5/C14, 6",
+  note="The growth schedule itself (magic numbers) is not part of the oracle; only the invariants the property states are.",
+  technique="property-based testing with captured random draws and invariant oracle over the iteration history"),
  "C16": dict(
   category="exploration",
   text="Exhaustive enumeration of batch_tasks on a bounded box (n_tasks<=160 x n_batches<=200 x 4 start indices x "
